@@ -224,12 +224,19 @@ def r4(F, R):
     R.rule("C06-R4", "after warmup (draw >= num_tune) adapt() only calls update_stepsize(.., use_best_guess = true), unconditionally; in the final "
                      "window only update_estimator_late and update_stepsize(.., is_last) with is_last = (draw == num_tune - 1); "
                      "Hamiltonian::step_size_mut is called only from the step-size strategy")
-    for b in adapt_impls(F):
+    from . import c07 as C07
+    for b0 in adapt_impls(F):
+        # the estimator-update helpers of the step-size strategy (two functions, or one with a flag) are inlined: what counts is which
+        # acceptance statistic advances the estimator in which region
+        b = C07.estimator_inlined(F, b0)
+        feeds = C07.estimator_feed_sites(b, 0)
         post, final = [], []
         for bb, t in b.calls():
             c = t["callee"]
             if "path" not in c or not c.get("local"):
                 continue
+            if c.get("name") == "advance" and bb not in feeds:
+                continue        # not reachable on any feasible path (the other arm of an inlined `if late`)
             rels = Rl.edge_relations(b, bb)
             ge = Rl.holds(rels, "Ge", Rl.is_arg_named(b, "draw"), Rl.is_self_field("num_tune"))
             lt_tune = Rl.holds(rels, "Lt", Rl.is_arg_named(b, "draw"), Rl.is_self_field("num_tune"))
@@ -260,9 +267,15 @@ def r4(F, R):
             else:
                 R.ok("C06-R4", key0, "%s @%s" % (b.path, loc(t["span"])), "update_stepsize(.., true) unconditionally after warmup")
         key1 = b.path + ":final-window"
-        fnames = sorted(t["callee"]["name"] for (_bb, t, _r) in final)
-        if fnames != ["update_estimator_late", "update_stepsize"]:
-            R.bad("C06-R4", key1, site0, "final step-size window calls %s, expected [update_estimator_late, update_stepsize]" % fnames)
+        fed = set()
+        for (bb_, t_, _r) in final:
+            if t_["callee"]["name"] == "advance":
+                fed |= feeds.get(bb_, (None, {"?"}))[1]
+        fnames = sorted({("advance" if t["callee"]["name"] == "advance" else t["callee"]["name"]) for (_bb, t, _r) in final})
+        if fnames != ["advance", "update_stepsize"] or len([1 for (_bb, t, _r) in final if t["callee"]["name"] == "update_stepsize"]) != 1:
+            R.bad("C06-R4", key1, site0, "final step-size window calls %s, expected the estimator update and one update_stepsize" % sorted(t["callee"]["name"] for (_bb, t, _r) in final))
+        elif not fed or any("sym" not in str(f) for f in fed):
+            R.bad("C06-R4", key1, site0, "in the final step-size window the estimator is advanced with %s, expected the symmetric (late) acceptance statistic only" % sorted(fed))
         else:
             t = [t for (_bb, t, _r) in final if t["callee"]["name"] == "update_stepsize"][0]
             flag = b.value(t["args"][-1])
